@@ -125,7 +125,10 @@ def discover(ir, unit, repo):
     # worker entry: &Class::method handed to std::thread in a constructor
     wn = set()
     R.thread_starts = []     # (ctor, construct node, in_body)
-    for ctor in kl.ctors:
+    R.late_starts = []       # (method name, construct node): worker threads started outside a constructor
+    ctor_ids = {id(c) for c in kl.ctors}
+    starters = list(kl.ctors) + [m_ for ms_ in kl.methods.values() for m_ in ms_ if id(m_) not in ctor_ids and m_ is not kl.dtor]
+    for ctor in starters:
         body = cir.body(ctor)
         body_ids = {id(x) for x in cir.walk(body)} if body else set()
         for n in cir.walk(ctor):
@@ -139,12 +142,29 @@ def discover(ir, unit, repo):
                     r = cir.strip(cir.kids(first)[0])
                     if r is not None and (r.get("ref") or {}).get("id") in mids:
                         wn.add((r.get("ref") or {}).get("n"))
-                        R.thread_starts.append((ctor, n, id(n) in body_ids))
+                        if id(ctor) in ctor_ids:
+                            R.thread_starts.append((ctor, n, id(n) in body_ids))
+                        else:
+                            R.late_starts.append((ctor.get("n"), n))
                         continue
                 if first is not None and "thread" in (first.get("t") or "") and len(a) == 1:
                     continue     # move/copy of a std::thread value
                 raise AnalysisError(f"{CLASS}: std::thread started with a callable this checker cannot resolve "
                                     f"(line {n.get('line')})")
+            # threads_.emplace_back(&Class::method, this, ...): in-place construction in the thread container
+            if n.get("k") == "CXXMemberCallExpr" and cir.callee(n) in ("emplace_back", "emplace"):
+                f_ = cir.strip(cir.kids(n)[0])
+                tm_ = cxx.this_member(cir.kids(f_)[0]) if f_ is not None and cir.kids(f_) else None
+                a = [x for x in cir.args(n) if x is not None]
+                first = cir.strip(a[0]) if a else None
+                if tm_ and tm_[0] == R.T["name"] and first is not None and first.get("k") == "UnaryOperator" and first.get("op") == "&":
+                    r = cir.strip(cir.kids(first)[0])
+                    if r is not None and (r.get("ref") or {}).get("id") in mids:
+                        wn.add((r.get("ref") or {}).get("n"))
+                        if id(ctor) in ctor_ids:
+                            R.thread_starts.append((ctor, n, id(n) in body_ids))
+                        else:
+                            R.late_starts.append((ctor.get("n"), n))
     if len(wn) != 1:
         raise AnalysisError(f"{CLASS}: expected one worker entry method handed to std::thread, found {sorted(wn)}")
     R.worker_name = wn.pop()
@@ -779,8 +799,8 @@ def shutdown_and_values(R, res):
             res.bad("R-SHUTDOWN", key, TU, n.get("line"),
                     f"worker threads are started in the member initialiser of {R.T['name']}, but "
                     f"{[f['name'] for f in used_after]} are declared (and therefore initialised) after it")
-    if not R.thread_starts:
-        raise AnalysisError(f"{CLASS}: no std::thread start found in a constructor")
+    if not R.thread_starts and not R.late_starts:
+        raise AnalysisError(f"{CLASS}: no std::thread start found")
     # signal values
     v0 = field_init_const(P)
     key = f"{CLASS}:signal-values:{R.P}"
@@ -859,8 +879,12 @@ def thread_ids(R, res, unit):
                 else:
                     res.bad("R-TASK-CALL", key, TU, n.get("line"), msg)
     # constructor: worker i gets loopvar + c, c >= 1, loop 0 <= i < n and the container has n elements
-    for ctor, n, in_body in R.thread_starts:
+    _methods = {m_.get("n"): m_ for ms_ in kl.methods.values() for m_ in ms_} if hasattr(kl, "methods") else {}
+    _starts = list(R.thread_starts) + [(_methods.get(mn_), n_, True) for mn_, n_ in R.late_starts if _methods.get(mn_) is not None]
+    for ctor, n, in_body in _starts:
         a = [x for x in cir.kids(n) if x is not None]
+        if n.get("k") == "CXXMemberCallExpr":
+            a = [x for x in cir.args(n) if x is not None]
         key = f"{CLASS}::{CLASS}:worker-thread-ids"
         idx = cir.strip(a[-1]) if len(a) >= 3 else None
         ok = False
@@ -1238,7 +1262,7 @@ def run(res, tier):
     res.rule("R-DONE", "worker increments the done counter exactly once per batch, release RMW, after its last task",
              floor=3)
     res.rule("R-WAIT-DOM", "every path from the publication to the exit of dispatch passes the acquire poll of the "
-             "done counter against the worker count", floor=4)
+             "done counter against the worker count; only workers check in; workers exist from construction on", floor=6)
 
     n = claim_sites(R, res, R.dispatch, R.dispatch_name, True)
     n += claim_sites(R, res, R.worker, R.worker_name, False)
@@ -1263,6 +1287,29 @@ def run(res, tier):
     if f"wait-acquire:{R.D}" not in ev_wait.ev:
         ev_wait.note(f"wait-acquire:{R.D}", False, R.dispatch_raw,
                      f"{R.dispatch_name} has no poll of {R.D} after the publication")
+    # the completion wait counts workers: the dispatching thread itself must not check in on the done counter, and workers
+    # exist from construction on (a worker started on a live pool has the wrong idea of the publication's current value: it can
+    # sleep through the next batch, and the wait never ends)
+    # a start-up helper that only constructors call is part of construction
+    def _only_from_ctors(mname):
+        callers = []
+        ctor_ids_ = {id(c_) for c_ in kl.ctors}
+        hosts = [(id(m_) in ctor_ids_, m_) for ms_ in kl.methods.values() for m_ in ms_] + [(True, c_) for c_ in kl.ctors] + \
+                [(False, f_) for f_ in unit.funcs.values()]
+        for is_ctor, h_ in hosts:
+            for c_ in cir.walk(h_):
+                if c_.get("k") in ("CXXMemberCallExpr", "CallExpr") and cir.callee(c_) == mname:
+                    callers.append(is_ctor)
+        return bool(callers) and all(callers)
+    R.late_starts = [(mn_, n_) for mn_, n_ in R.late_starts if not _only_from_ctors(mn_)]
+    rmw = [a_ for a_ in cxx.atomic_ops(R.dispatch, own=False) if a_.member == R.D and a_.kind not in ("load", "store")]
+    ev_wait.note("dispatcher-does-not-check-in", not rmw, rmw[0].node if rmw else R.dispatch_raw,
+                 f"{R.dispatch_name} itself modifies the done counter {R.D} ({rmw[0].describe() if rmw else ''}): the completion wait "
+                 f"compares it with the number of workers, so it is satisfied while a worker is still inside the task function")
+    ev_wait.note("workers-started-at-construction", not R.late_starts, R.late_starts[0][1] if R.late_starts else R.dispatch_raw,
+                 f"a worker thread is started outside a constructor ({R.late_starts[0][0] if R.late_starts else ''}): its initial "
+                 f"expectation of {R.P} is only valid on a fresh pool; after an odd number of batches it sleeps through the next "
+                 f"publication and the completion wait never ends")
     ev_pub.flush(res, "R-PUBLISH-ORDER", f"{CLASS}::{R.dispatch_name}", TU)
     ev_wait.flush(res, "R-WAIT-DOM", f"{CLASS}::{R.dispatch_name}", TU)
 
